@@ -24,7 +24,7 @@ ASSUMPTIONS = [
 ]
 BUDGET = {
     "quick": {"examples": 400, "workers": 8, "time_cap": 70},
-    "thorough": {"examples": 15000, "workers": 14, "time_cap": 1500},
+    "thorough": {"examples": 15000, "workers": 14, "time_cap": 900},
 }
 GRID_DESC = {
     "quick": "single file, sizes k*B+d and k*P+d (k<=8, d in -1,0,1) x P in 2^14,2^15,2^16 x creators V2/Assembler2",
